@@ -66,6 +66,7 @@ struct Runner {
     std::function<JObj(uint64_t)> describe;          // descriptor of case idx
     std::function<void(int)> shard_init;             // optional per-child initialisation
     std::string hash_out;                            // if set: merged "idx hash" lines are written here
+    uint64_t max_mask = 0;                           // counters whose bit is set are merged with max instead of sum
     // results
     uint64_t total_done = 0; uint64_t counters[NCOUNTERS] = {0};
     std::set<uint64_t> classes; bool exhaustive = true; uint64_t covered_prefix = 0;
@@ -183,7 +184,7 @@ struct Runner {
         covered_prefix = ncases;
         for (int s = 0; s < nshards; ++s) {
             total_done += ctls[s].done;
-            for (int c = 0; c < NCOUNTERS; ++c) counters[c] += ctls[s].counters[c];
+            for (int c = 0; c < NCOUNTERS; ++c) { if (max_mask >> c & 1) { if (ctls[s].counters[c] > counters[c]) counters[c] = ctls[s].counters[c]; } else counters[c] += ctls[s].counters[c]; }
             for (unsigned i = 0; i < HASHCAP; ++i) if (ctls[s].hashes[i]) classes.insert(uint64_t(ctls[s].hashes[i]));
             if (ctls[s].nhash >= HASHCAP * 3 / 4) class_cap_hit = true;
             if (ctls[s].cut || ctls[s].next < ncases) { exhaustive = false; if (ctls[s].next < covered_prefix) covered_prefix = ctls[s].next; }
